@@ -329,6 +329,76 @@ fn histories() -> Acc {
     acc
 }
 
+/// Blanks around the whole line decide nothing: every sequence of 0..2 words (operators,
+/// primaries and the option words), alone and behind one or two leading options, with every
+/// combination of leading and trailing blanks, must get the answer of the line without them -
+/// acceptance, tree and options (a differential oracle: no expected value is written down; the
+/// unpadded lines are judged against the grammar by the sweeps).
+fn padded_lines() -> Acc {
+    const W: [&str; 14] = ["(", ")", "!", ",", "-a", "-o", "-true", "-name a,b", "-print", "-depth", "-threads 2", "-uid 1", "-quit", "-false"];
+    const PADS: [&str; 7] = ["", " ", "\n", "\t", "\r", "  ", " \n\t "];
+    const LEADS: [&str; 4] = ["", "-depth", "-threads 3", "-depth -threads 4"];
+    let mut lines: Vec<String> = vec![];
+    let mut buf = vec![];
+    for lead in LEADS {
+        for len in 0..=2usize {
+            for i in 0..(W.len() as u64).pow(len as u32) {
+                seq_at(&W, len, i, &mut buf);
+                let mut words: Vec<&str> = vec![];
+                if !lead.is_empty() {
+                    words.push(lead);
+                }
+                words.extend(buf.iter().copied());
+                lines.push(words.join(" "));
+            }
+        }
+    }
+    speclib::report::par_items(&lines, |line, acc| {
+        let base = parse_spec(line);
+        if let PS::Panic(p) = &base {
+            acc.violate(Violation::new(format!("C01:panic:{}", panic_site(p)), format!("parse({line:?}) panicked: {p}"), json!({"kind": "padded", "line": line, "before": "", "after": ""})));
+            return;
+        }
+        for before in PADS {
+            for after in PADS {
+                if before.is_empty() && after.is_empty() {
+                    continue;
+                }
+                acc.states += 1;
+                acc.transitions += 1;
+                acc.validated += 1;
+                let input = format!("{before}{line}{after}");
+                let got = parse_spec(&input);
+                let same = match (&base, &got) {
+                    (PS::Ok(o1, t1), PS::Ok(o2, t2)) => o1 == o2 && t1 == t2,
+                    (PS::Err(_), PS::Err(_)) => true,
+                    _ => false,
+                };
+                if same {
+                    acc.count("padded_same", 1);
+                    continue;
+                }
+                let show = |p: &PS| match p {
+                    PS::Ok(o, t) => format!("Ok({}, {})", o.dbg, t.show()),
+                    PS::Err(e) => format!("Err({e})"),
+                    PS::Panic(p) => format!("Panic({p})"),
+                };
+                let sig = match (&base, &got) {
+                    (_, PS::Panic(_)) => "C01:padded-line:panic",
+                    (PS::Ok(..), PS::Err(_)) => "C01:padded-line:sentence-refused",
+                    (PS::Err(_), PS::Ok(..)) => "C01:padded-line:non-sentence-accepted",
+                    _ => "C01:padded-line:different-result",
+                };
+                acc.violate(Violation::new(
+                    sig,
+                    format!("parse({input:?}) answers {}; without the blanks around the line parse({line:?}) answers {}", show(&got), show(&base)),
+                    json!({"kind": "padded", "line": line, "before": before, "after": after}),
+                ));
+            }
+        }
+    })
+}
+
 /// An operator word glued to the word after it (`-o-print`, `-a(`, `-and!`) is no operator: every
 /// sentence of <= 4 words with one such junction must be refused.
 fn glued_operators() -> Acc {
@@ -491,9 +561,10 @@ pub fn run(ctx: &Ctx) -> i32 {
     acc = acc.merge(long_sentences());
     acc = acc.merge(histories());
     acc = acc.merge(glued_operators());
+    acc = acc.merge(padded_lines());
     acc = acc.merge(option_sequences(ctx.tier.pick(5, 6)));
     acc = acc.merge(vocabulary_sequences(ctx.tier.pick(4, 5)));
-    let mut bound = format!("all word sequences of length 1..{n11} over {} words; all sequences up to length {} containing the option word -depth, and all sequences up to length {} over (, ), !, ',', -a, -o, -true and one of ~70 special primaries (every vocabulary keyword with an argument, and primaries whose argument word is an operator or keyword spelling) (text-level reference); chains of 2..20 and of 31..600 primaries (every size in the range) under each operator spelling and juxtaposition, within 4 KiB; 1..64-fold negation and parentheses", WORDS11.len(), ctx.tier.pick(5, 6), ctx.tier.pick(4, 5));
+    let mut bound = format!("all word sequences of length 1..{n11} over {} words; all sequences up to length {} containing the option word -depth, and all sequences up to length {} over (, ), !, ',', -a, -o, -true and one of ~70 special primaries (every vocabulary keyword with an argument, and primaries whose argument word is an operator or keyword spelling) (text-level reference); chains of 2..20 and of 31..600 primaries (every size in the range) under each operator spelling and juxtaposition, within 4 KiB; 1..64-fold negation and parentheses; every line of 0..2 words over 14 words (operators, primaries, option words) alone and behind 3 runs of leading options, under 48 combinations of leading and trailing blanks, against the same line without them", WORDS11.len(), ctx.tier.pick(5, 6), ctx.tier.pick(4, 5));
     if ctx.tier == Tier::Thorough {
         let a9 = sweep(&WORDS9, 9, 9);
         acc = acc.merge(a9);
@@ -524,6 +595,17 @@ pub fn replay(w: &Value) -> Vec<Violation> {
             .into_iter()
             .map(|(i, j, after, alone)| Violation::new("C01:answer-depends-on-the-previous-parse", format!("parse({:?}) after parse({:?}): {after} vs {alone}", inputs[j], inputs[i]), w.clone()))
             .collect();
+    }
+    if w["kind"] == "padded" {
+        let line = w["line"].as_str().unwrap_or("");
+        let input = format!("{}{line}{}", w["before"].as_str().unwrap_or(""), w["after"].as_str().unwrap_or(""));
+        let (base, got) = (parse_spec(line), parse_spec(&input));
+        let same = match (&base, &got) {
+            (PS::Ok(o1, t1), PS::Ok(o2, t2)) => o1 == o2 && t1 == t2,
+            (PS::Err(_), PS::Err(_)) => true,
+            _ => false,
+        };
+        return if same { vec![] } else { vec![Violation::new("C01:padded-line", format!("parse({input:?}) and parse({line:?}) answer differently"), w.clone())] };
     }
     if w["kind"] == "option-words" {
         // re-run the single input through the same comparison
